@@ -530,3 +530,64 @@ func ctorSources(a *acc, maxN int) {
 		}
 	}
 }
+
+// ---------------------------------------------------------------------------------------------
+// Runs with NON-SYMMETRIC preorders. The Runs family only requires same to be reflexive and
+// transitive. Reference = the greedy neighbour rule (ref.go refRuns): a run is extended while
+// same(previous item, next item) holds; with a transitive relation that is exactly "same(a, b)
+// for any a and b in the run" with a before b.
+
+var preorders = []classFn{
+	{"digit(a) <= digit(b)", func(a, b int) bool { return digit(a) <= digit(b) }},
+	{"digit(a) >= digit(b)", func(a, b int) bool { return digit(a) >= digit(b) }},
+}
+
+// preorderRuns: iterator.Runs, stream.Runs and xslices.Runs are all judged against the neighbour
+// reference (and therefore against each other); fixed in /repo by 905002a (prev follows the last
+// yielded item; before, iterator.Runs and stream.Runs compared every item with the head of the run).
+func preorderRuns(a *acc, src []int, cl classFn) {
+	param := "same = " + cl.name + " (a preorder, not symmetric)"
+	runRuns(a, src, cl.same, param, func(s []int) [][]int { return xslices.Runs(s, cl.same) })
+	for _, pol := range takePolicies {
+		runRunsPartial(a, src, cl.same, param, pol)
+	}
+	runsPosition(a, src, cl.same, param)
+	a.count("regression scenarios", "Runs with a non-symmetric preorder (neighbour rule, all three flavours)", 1)
+}
+
+func smallRunsPreorder(a *acc, sp *seqSpace, idx int, cfg smallCfg) {
+	t := tagged(sp.seqs[idx])
+	for _, cl := range preorders {
+		preorderRuns(a, t, cl)
+	}
+}
+
+// divisibility on {1,2,3,4,6,12}: a partial order with incomparable items
+var divAlphabet = []int{1, 2, 3, 4, 6, 12}
+
+func divides(a, b int) bool { return b%a == 0 }
+
+// divSeq is sequence number idx (base 6, lengths 0..) over divAlphabet.
+func divSeq(idx int) []int {
+	n, block := 0, 1
+	for idx >= block {
+		idx -= block
+		block *= 6
+		n++
+	}
+	s := make([]int, n)
+	for i := n - 1; i >= 0; i-- {
+		s[i] = divAlphabet[idx%6]
+		idx /= 6
+	}
+	return s
+}
+
+func divCount(maxLen int) int {
+	total, block := 0, 1
+	for n := 0; n <= maxLen; n++ {
+		total += block
+		block *= 6
+	}
+	return total
+}
